@@ -18,3 +18,8 @@ Proof. exact rows_in_order. Qed.
 
 Theorem C19_truncation_refuted : zip_row ["a"] [JInt 1%Z; JInt 2%Z] = JDict [("a", JInt 1%Z)].
 Proof. exact truncation_refuted. Qed.
+
+(* non-vacuity: two columns, two rows *)
+Example C19_premise_satisfiable : NoDup ["a"; "b"] /\ insert_values ["a"; "b"] [[JInt 1%Z; JStr "x"]; [JInt 2%Z; JStr "y"]]
+  = JList [JDict [("a", JInt 1%Z); ("b", JStr "x")]; JDict [("a", JInt 2%Z); ("b", JStr "y")]].
+Proof. split; [repeat constructor; simpl; intuition discriminate|vm_compute; reflexivity]. Qed.
